@@ -82,6 +82,7 @@ class LSym:
         self.panic_edges_closed = 0   # branches into panic blocks decided infeasible by interval arithmetic alone
         self.events = []          # ('branch', fn, cond) / ('addr', ...) records for relational checks
         self.record_events = False
+        self.n_branches = 0; self.n_addrs = 0; self.cur_call_rty = None
 
     # ------------------------------------------------------------------ memory
     def new_region(self, tag, size=None, zero=False, kind="mem"):
@@ -681,6 +682,9 @@ class LSym:
     def symbolic_memcmp(self, xs, ys, diffs):
         raise Unsupported("memcmp of symbolic bytes")
     def on_dealloc(self, p, args): pass
+    # hooks of the taint engine (llsym/tsym.py): the base engine has no secret values
+    def is_secret(self, v): return False
+    def leak(self, kind, what, fn=None, lab=None, ins=None): raise Unsupported(what)
 
     def intrinsic(self, name, a):
         if name.startswith("llvm.lifetime") or name.startswith("llvm.experimental.noalias") or name.startswith("llvm.dbg") \
@@ -784,7 +788,7 @@ class LSym:
                     try:
                         _SIMPLE[op](self, env, ins)
                     except Unsupported as e:
-                        if " [in " not in str(e): raise Unsupported("%s [in %s: %s]" % (e, fn.name[-70:], str(ins)[:160]))
+                        if " [in " not in str(e): raise type(e)("%s [in %s: %s]" % (e, fn.name[-70:], str(ins)[:160]))
                         raise
                     continue
                 if op == "call":
@@ -795,6 +799,7 @@ class LSym:
                         if not isinstance(f, FnPtr): raise Unsupported("indirect call through non-function value")
                         cname = f.name
                     vals = [self.opval(env, o, t) for t, o in cargs]
+                    self.cur_call_rty = rty
                     r = self.call(cname, vals, comment)
                     if dst: env[dst] = r
                     continue
@@ -808,11 +813,14 @@ class LSym:
                 if op == "asm": continue
                 if op == "br": nxt = ins[2]; break
                 if op == "condbr":
-                    c = self.to_cond(self.opval(env, ins[2], "i1"))
+                    self.n_branches += 1
+                    cv_ = self.opval(env, ins[2], "i1")
+                    if self.is_secret(cv_): self.leak("branch", "conditional branch on a secret-dependent value", fn, lab, ins)
+                    c = self.to_cond(cv_)
                     r = self.eval_cond(c)
-                    if self.record_events: self.events.append(("branch", fn.name, lab, c))
                     if r is not None:
                         nxt = ins[3] if r else ins[4]
+                        if self.record_events: self.events.append(("br", fn.name, lab, nxt))
                         if doomed is None: doomed = self.doomed(fn)
                         if (ins[4] if r else ins[3]) in doomed and nxt not in doomed: self.panic_edges_closed += 1
                         break
@@ -829,12 +837,16 @@ class LSym:
                         if d is not None: nxt = d; break
                     raise Unsupported("branch on symbolic condition in %s:%s  %r" % (fn.name, lab, c))
                 if op == "switch":
-                    v = self.P(self.opval(env, ins[3], ins[2]))
+                    self.n_branches += 1
+                    sv_ = self.opval(env, ins[3], ins[2])
+                    if self.is_secret(sv_): self.leak("branch", "switch on a secret-dependent value", fn, lab, ins)
+                    v = self.P(sv_)
                     if not v.is_const(): raise Unsupported("switch on symbolic value in " + fn.name)
                     w = int_width(ins[2]); cv = v.cval()
                     nxt = ins[4]
                     for cval, l in ins[5]:
                         if (cval & ((1 << w) - 1)) == cv: nxt = l; break
+                    if self.record_events: self.events.append(("br", fn.name, lab, nxt))
                     break
                 if op == "ret":
                     return None if ins[2] is None else self.opval(env, ins[3], ins[2])
@@ -866,7 +878,8 @@ def _i_load(self, env, ins):
     ptr = self.opval(env, p, "ptr")
     v = vec_type(ty)
     size = self.mod.sizeof(ty)
-    if self.record_events: self.events.append(("addr", ptr))
+    self.n_addrs += 1
+    if self.record_events and isinstance(ptr, Ptr): self.events.append(("ld", ptr.r, ptr.o))
     if ty == "ptr":
         r = self.load(ptr, 8)
         env[dst] = r
@@ -882,6 +895,8 @@ def _i_store(self, env, ins):
     _, _, ty, v, p, vol = ins
     ptr = self.opval(env, p, "ptr")
     val = self.opval(env, v, ty)
+    self.n_addrs += 1
+    if self.record_events and isinstance(ptr, Ptr): self.events.append(("st", ptr.r, ptr.o))
     if ty.startswith("{") or ty.startswith("["):
         raise Unsupported("aggregate store " + ty)
     size = self.mod.sizeof(ty)
@@ -894,7 +909,9 @@ def _i_gep(self, env, ins):
     if not isinstance(base, Ptr): raise Unsupported("gep on non-pointer")
     off = 0; cur = ty
     for n, (it, o) in enumerate(idx):
-        iv = self.P(self.opval(env, o, it))
+        ov_ = self.opval(env, o, it)
+        if self.is_secret(ov_): self.leak("address", "address computed from a secret-dependent index (getelementptr)", None, None, ins)
+        iv = self.P(ov_)
         if not iv.is_const():
             raise Unsupported("symbolic address (gep index) ")
         i = iv.cval()
